@@ -17,7 +17,7 @@ def plan(pid, tier, seed):
     quick = tier == "quick"
     if quick:
         mc = [
-            {"module": "BadSmell", "cfg": "BadSmell_MC_quick.cfg", "emit": True, "sample": 2600, "properties": PROPS_ALL, "timeout": 600},
+            {"module": "BadSmell", "cfg": "BadSmell_MC_quick.cfg", "emit": True, "sample": 1600, "properties": PROPS_ALL, "timeout": 600},
         ]
     else:
         mc = [
@@ -30,7 +30,7 @@ def plan(pid, tier, seed):
         "needs_coca": True,
         "mc": mc,
         "gen": [],
-        "rand": 500 if quick else 12000,
+        "rand": 400 if quick else 12000,
         "trace": TRACE,
         "run_timeout": 6000,
     }
@@ -46,7 +46,9 @@ def case_from_tlc(obj, h, g):
                 m["stmts"] = []
     if not isinstance(inp.get("ignore"), list):
         inp["ignore"] = []
-    return {"case": "tlc-" + h, "input": inp}
+    # the coca binary is run whenever the sort option is on (cmd/bs.go is the only caller of the sort) and
+    # for every third of the other cases (it costs 0.2 s of profiler shutdown per run)
+    return {"case": "tlc-" + h, "input": inp, "cli": bool(inp["sort"]) or int(h, 16) % 3 == 0}
 
 
 def nontrivial(rec):
